@@ -5,6 +5,12 @@ proofs : coq/theories/C15 - over the list of ALL `quote!`/`parse_quote!` templat
          template is closed (keyword / primitive / bound by a template / `derive_more`) or one of the explicitly
          listed known offenders; a closed template resolves identically in any two scopes that agree outside the
          prelude and outside arbitrary hostile user items (C15_scope_independent).
+         Growth round: every macro a template invokes is `derive_more::core::<name>!`; every `derive_more::..` path is backed by
+         an export of src/lib.rs (regenerated); every `recv.method(..)` site has a receiver whose type the macro fixes, or is the
+         one listed site (`#expr.as_dyn_error()`); inherent calls are scope independent / trait-method calls observe the scope
+         (logical skeleton of method resolution); a head that is not closed DOES observe the scope (completeness); `::x` heads
+         depend on the crate table only; the generic parameters / lifetimes the macro introduces are `__`-prefixed (fresh
+         against user parameters that are not), except the listed `'_request`.
 tie    : T-gen (the templates ARE the source, lexer counts cross-checked with grep-level counts, fail closed) +
          the Coq classifier run on the REAL expansions of every corpus item (in-process expander) and compared,
          case by case, with rustc's verdict on the real macro.
@@ -37,6 +43,12 @@ TRUSTED = [
     "the template it is spliced into (all such names are bound by some template; discharged by rustc in scope np)",
     "interpolated values are the user's own tokens, other templates, or format_ident! names (all local-like or derived from "
     "the trait name, C15_format_idents_local_like); tokens emitted without quote! are covered by the expansion tie only",
+    "method calls: the model classifies the RECEIVER (user-typed or fixed by the macro); whether the method found on a macro-fixed "
+    "receiver is inherent (autoref steps, inherent-before-trait) is rustc's - measured by scope mh (a blanket by-value user trait "
+    "with every method name the expansions call), every dot call on a user-typed receiver the classifier finds in a real expansion "
+    "must be disturbed by it",
+    "tools/lib/c15_templates.py extract_exports: the `pub use` / `pub mod` items of src/lib.rs (cfg feature gates are not modelled; "
+    "the corpus builds with `full`)",
     "rustc 1.95 name resolution as the oracle; tools/lib/c15_corpus.py (hand-written items that avoid every prelude name)",
 ]
 
@@ -208,16 +220,25 @@ def names_in_message(msg, modname, scope, hostile, prelude_lines):
 # ------------------------------------------------------------------ the corpus run
 
 PR_PRELUDE = "pub struct bool; pub struct str; pub struct isize;"
-MH_PRELUDE = """pub trait Hijack: ::core::marker::Sized {
-    fn add(self, _o: Self) -> Self { self }
-    fn not(self) -> Self { self }
-    fn fold(self) -> Self { self }
-    fn as_str(self) -> Self { self }
-    fn to_lowercase(self) -> Self { self }
-}
-impl<T> Hijack for T {}"""
-INFO_SCOPES = {"pr": (PR_PRELUDE, ["IsVariant_enum", "FromStr_enum", "TryFrom_default_repr"]),
-               "mh": (MH_PRELUDE, ["Add_tuple", "Not_tuple", "Sum_tuple", "FromStr_enum", "Add_generic"])}
+OPERATOR_METHODS = ["add", "sub", "mul", "div", "rem", "shl", "shr", "bitand", "bitor", "bitxor", "not", "neg",
+                    "add_assign", "sub_assign", "mul_assign", "div_assign", "rem_assign", "shl_assign", "shr_assign",
+                    "bitand_assign", "bitor_assign", "bitxor_assign", "deref", "deref_mut", "index", "index_mut",
+                    "from", "into", "try_from", "try_into", "from_str", "into_iter", "as_ref", "as_mut", "sum", "product",
+                    "fmt", "source", "clone", "to_string", "map", "unwrap"]
+IN_PRELUDE = ("impl E1 { pub fn as_dyn_error(&self) -> &(dyn ::std::error::Error + 'static) { &crate::h::OTHER } }")
+INFO_SCOPES = {"pr": [PR_PRELUDE, ["IsVariant_enum", "FromStr_enum", "TryFrom_default_repr"]],
+               # a blanket, by-value user trait with a method for every name the expansions call with dot syntax (filled in at
+               # run time from the model's inventory) and for the operator / conversion method names
+               "mh": ["", []],
+               # the user's source type has an inherent method called like the vendored thiserror helper
+               "in": [IN_PRELUDE, ["Error_named_source", "Error_tuple_source"]]}
+
+
+def set_hijack_scope(method_names, case_ids):
+    names = sorted(set(n for n in list(method_names) + OPERATOR_METHODS if re.match(r"^[a-z_][a-z0-9_]*$", n)))
+    body = "\n".join("    fn %s(self) -> Self { self }" % n for n in names)
+    INFO_SCOPES["mh"][0] = "pub trait Hijack: ::core::marker::Sized {\n%s\n}\nimpl<T> Hijack for T {}" % body
+    INFO_SCOPES["mh"][1] = list(case_ids)
 
 
 def module_source(c, scope):
@@ -279,6 +300,22 @@ def build_corpus(chk, cases, name, toolchain=None, crate_attrs="", target_dir=No
     return failed, outputs, rounds
 
 
+def build_corpus_info(cases, name, toolchain, crate_attrs, target_dir):
+    """plain modules only; -> ({case id: [messages]}, None, 1)"""
+    active = [(c, "pl") for c in cases]
+    extra = {"pl_%s.rs" % c["id"]: C.module_source(c, "pl") for c in cases}
+    d = common.make_crate(name, C.main_rs(active, crate_attrs), extra_files=extra)
+    rc, out = common.cargo(d, ([toolchain] if toolchain else []) + ["build", "--message-format=json"], timeout=1500, target_dir=target_dir)
+    failed = {}
+    if rc != 0:
+        for m in parse_messages(out):
+            for sp in all_spans(m):
+                f = os.path.basename(sp["file_name"])[:-3]
+                if f.startswith("pl_"):
+                    failed.setdefault(f[3:], []).append(m)
+    return failed, None, 1
+
+
 # ------------------------------------------------------------------ the check
 
 def run(tier, seed, replay):
@@ -313,11 +350,22 @@ def run(tier, seed, replay):
             "offenders templates",
             "map (fun t => (t_file t, t_line t, map show_head (head_idents t), binders t, method_idents t)) templates",
             "global_binders templates",
-            "known_offender_keys"], tag="c15m")
+            "known_offender_keys",
+            "flat_map macro_paths templates",
+            "flat_map (fun t => map (fun s => (t_file t, t_line t, ms_name s, method_site_closed (global_typed_binders templates) s)) (method_sites t)) templates",
+            "method_offenders templates",
+            "known_method_sites",
+            "introduced_generics templates format_idents",
+            "known_non_dunder_generics",
+            "filter (fun g => negb (starts_dunder g)) (introduced_generics templates format_idents)",
+            "List.length (flat_map dm_paths templates)"], tag="c15m")
     except common.BuildError as e:
         chk.violation("model-does-not-evaluate", {"error": str(e)[-3000:]}, "Model.v / Gen/Templates.v do not compile", no_input=True)
         return chk.finish(proof=st, rule="model failed", trusted=TRUSTED)
-    m_off, m_tpl, m_gb, m_known = terms
+    (m_off, m_tpl, m_gb, m_known, m_macros, m_msites, m_moff, m_mknown, m_gens, m_gknown, m_nondunder, m_ndm) = terms
+    m_known = [m_known] if isinstance(m_known, str) else list(m_known)
+    m_mknown = [m_mknown] if isinstance(m_mknown, str) else list(m_mknown)
+    m_gknown = [m_gknown] if isinstance(m_gknown, str) else list(m_gknown)
     m_off = [tuple(o) for o in m_off]
     assert len(m_tpl) == len(ex["templates"])
     n_heads = 0
@@ -349,6 +397,26 @@ def run(tier, seed, replay):
     for k, e in off_by_key.items():
         off_names_by_file.setdefault(e["file"], set()).add(e["name"])
 
+    # ---- inventories of the growth round: macros, method calls, introduced generic names
+    chk.bump("macro_invocations", len(m_macros))
+    chk.bump("method_call_sites", len(m_msites))
+    chk.bump("derive_more_paths", m_ndm)
+    for pth in m_macros:
+        if len(pth) < 3 or pth[0] != "derive_more" or pth[1] != "core":
+            chk.notes.append("macro path %s is not derive_more::core::<name> (also reported as a head offender)" % "::".join(pth))
+    method_site_table = []
+    for (f, line, nme, closed_) in m_msites:
+        method_site_table.append({"site": "impl/src/%s:%d" % (f, line), "method": nme, "closed": closed_ == "true"})
+    method_offender_keys = {}
+    for (f, nme) in [tuple(o) for o in m_moff]:
+        mkey = "%s:.%s" % (f, nme)
+        method_offender_keys[mkey] = [x["site"] for x in method_site_table if x["method"] == nme and x["site"].startswith("impl/src/" + f)]
+    for g in m_nondunder:
+        if g not in m_gknown and not only_key:
+            chk.violation("generic-name:" + g, {"name": g},
+                          "the macro introduces the generic parameter / lifetime `%s` next to the user's own parameters without the `__` "
+                          "prefix" % g, no_input=True)
+
     # ---- corpus
     cases = [c for c in C.CASES if tier == "thorough" or c["tier"] == "quick"]
     if only_case:
@@ -368,7 +436,9 @@ def run(tier, seed, replay):
     inproc = common.build_inproc()
     state = {"expansions": [], "rounds": 0, "n_valid": 0}
     exhibited = {}       # key -> [case ids]
-    observations = {"primitive_shadowing(pr)": {}, "trait_method_hijack(mh)": {}}
+    predicted_methods = {}   # case id -> method names called with dot syntax on a user-typed receiver in the real expansion
+    observations = {"primitive_shadowing(pr)": {}, "inherent_namesake(in)": {},
+                    "trait_method_hijack(mh)": {"user_receiver_rejected": [], "std_receiver_rejected": {}, "unaffected": 0}}
     hostile = C.hostile_names() | {"bool", "str", "isize"}
 
     def classify_expansions(cases_):
@@ -392,13 +462,16 @@ def run(tier, seed, replay):
                 chk.violation("expansion-not-lexable", {"case": cid, "derive": dname, "error": str(e)}, str(e), no_input=True)
                 continue
             state["expansions"].append((cid, tt))
-            exprs.append("offenders_of gb %s" % coq_template(tt, cid))
+            exprs.append("let t := %s in (offenders_of gb t, method_offenders_of (typed_binders t ++ gtb) t)" % coq_template(tt, cid))
             ex_owner.append((cid, dname, item))
-        pre = "Definition gb := Eval vm_compute in global_binders templates."
+        pre = ("Definition gb := Eval vm_compute in global_binders templates.\n"
+               "Definition gtb := Eval vm_compute in global_typed_binders templates.")
         preds = common.coq_eval(["Verif.C15.Model", "Verif.Gen.Templates"], exprs, preamble=pre, batch=40, tag="c15e")
         predicted = {}     # case id -> set of shown heads that come from the macro, not from the user's item
-        for (cid, dname, item), offs in zip(ex_owner, preds):
+        for (cid, dname, item), (offs, moffs) in zip(ex_owner, preds):
             user = idents_of(item)
+            for mo in moffs:
+                predicted_methods.setdefault(cid, set()).add(mo[1])
             for o in offs:
                 shown = o[2]
                 if bare_name(shown) not in user:
@@ -435,10 +508,32 @@ def run(tier, seed, replay):
                                   "%s is rejected in scope %s but no caller-scope name could be read off the diagnostics: %s" % (
                                       cid, sc, [m["message"] for m in msgs][:2]))
             for sc in INFO_SCOPES:
-                if cid in INFO_SCOPES[sc][1]:
+                if cid in INFO_SCOPES[sc][1] and ((cid, sc) in failed or (cid, sc) in outputs):
                     msgs = failed.get((cid, sc))
-                    label = "primitive_shadowing(pr)" if sc == "pr" else "trait_method_hijack(mh)"
-                    observations[label][cid] = "compiles" if msgs is None else "rejected: " + "; ".join(sorted(set(m["message"] for m in msgs)))[:300]
+                    verdict = "compiles" if msgs is None else "rejected: " + "; ".join(sorted(set(m["message"] for m in msgs)))[:300]
+                    if sc == "pr":
+                        observations["primitive_shadowing(pr)"][cid] = verdict
+                    elif sc == "in":
+                        o = outputs.get((cid, sc))
+                        observations["inherent_namesake(in)"][cid] = verdict if msgs is not None else (
+                            "compiles; behaviour %s (plain %r, with an inherent `as_dyn_error` on the source type %r)" % (
+                                "DIFFERS" if o != outputs.get((cid, "pl")) else "same", outputs.get((cid, "pl")), o))
+                    else:
+                        # tie of the method-call classification: a dot call on a user-typed receiver must be captured by the
+                        # blanket trait (ambiguity or hijack => rejected)
+                        chk.bump("method_hijack_cases")
+                        M = predicted_methods.get(cid, set())
+                        if M and msgs is None:
+                            chk.violation("method-prediction-wrong:%s" % cid, {"case": cid, "classifier": sorted(M), "source": c["src"]},
+                                          "classifier says the expansion of %s calls %s on a user-typed receiver, but a blanket user trait with "
+                                          "these methods does not disturb it" % (cid, sorted(M)))
+                        elif M:
+                            state["n_valid"] += 1
+                            observations["trait_method_hijack(mh)"]["user_receiver_rejected"].append(cid)
+                        elif msgs is not None:
+                            observations["trait_method_hijack(mh)"]["std_receiver_rejected"][cid] = verdict[:160]
+                        else:
+                            observations["trait_method_hijack(mh)"]["unaffected"] += 1
             # compare with the classifier's prediction for this case
             P = predicted.get(cid, set())
             rejected = any((cid, sc) in failed for sc in C.SCOPES[1:])
@@ -476,6 +571,15 @@ def run(tier, seed, replay):
                         "names": sorted(R)}, limit=8)
 
     predicted = classify_expansions(cases)
+    if tier == "thorough":
+        mh_ids = [c["id"] for c in cases]
+    else:
+        mh_ids, seen_d = [], set()
+        for c in cases:
+            if c["id"] in predicted_methods or c["derives"][0] not in seen_d:
+                mh_ids.append(c["id"])
+                seen_d.add(c["derives"][0])
+    set_hijack_scope(methods, mh_ids)
     name = "c15_corpus"
     try:
         failed, outputs, rounds = build_corpus(chk, cases, name)
@@ -489,12 +593,26 @@ def run(tier, seed, replay):
     if tier == "thorough" and not only_case:
         nightly_cases = list(C.NIGHTLY_CASES)
         npred = classify_expansions(nightly_cases)
+        set_hijack_scope(methods, [])
+        INFO_SCOPES["lt"] = ["", [c["id"] for c in C.NIGHTLY_INFO_CASES]]
         nname = "c15_corpus_nightly"
         try:
             nfailed, noutputs, _ = build_corpus(chk, nightly_cases, nname, toolchain="+nightly",
                                                 crate_attrs="#![feature(error_generic_member_access)]",
                                                 target_dir=os.path.join(common.BUILD, "target-rt-nightly-C15"))
             analyse(nightly_cases, npred, nfailed, noutputs)
+            # user lifetime called like the macro's own `'_request` (known_non_dunder_generics): measured, not a violation
+            d2 = "c15_corpus_nightly_lt"
+            try:
+                lfailed, _, _ = build_corpus_info(C.NIGHTLY_INFO_CASES, d2, "+nightly", "#![feature(error_generic_member_access)]",
+                                                  os.path.join(common.BUILD, "target-rt-nightly-C15"))
+                for c in C.NIGHTLY_INFO_CASES:
+                    msgs = lfailed.get(c["id"])
+                    observations.setdefault("generic_name_clash", {})[c["id"]] = "compiles" if not msgs else "rejected: " + "; ".join(
+                        sorted(set(m["message"] for m in msgs)))[:300]
+            finally:
+                common.cleanup_scratch(d2)
+            INFO_SCOPES.pop("lt", None)
         finally:
             common.cleanup_scratch(nname)
     chk.cov["traces_validated_against_impl"] = state["n_valid"]
@@ -512,6 +630,22 @@ def run(tier, seed, replay):
             covered += 1
         else:
             uncovered.append("%s:%d" % (t["file"], t["line"]))
+
+    # ---- dot calls on user-typed receivers: class key `<file>:.<method>` (listed ones become KNOWN-FINDING lines)
+    for mkey, sites in sorted(method_offender_keys.items()):
+        if only_key and mkey != only_key:
+            continue
+        nme = mkey.split(":.")[1]
+        chk.violation(mkey, {"key": mkey, "sites": sites,
+                             "inherent_namesake_probe": observations["inherent_namesake(in)"],
+                             "blanket_trait_probe_rejected": observations["trait_method_hijack(mh)"]["user_receiver_rejected"][:8],
+                             "in_Model_known_method_sites": mkey in m_mknown},
+                      "template(s) at %s call `.%s(..)` with method-call syntax on a user-typed receiver: the trait must be in scope at the "
+                      "call site, another applicable trait makes it ambiguous, and an inherent method of the user's type with that name "
+                      "wins (measured: %s)" % (", ".join(sites), nme,
+                                               "; ".join("%s: %s" % kv for kv in sorted(observations["inherent_namesake(in)"].items()))[:300]))
+        if mkey not in m_mknown:
+            chk.notes.append("method site %s is not in Model.known_method_sites: C15_method_calls_classified fails on this tree" % mkey)
 
     # ---- report every offender class (template level), with its exhibiting cases
     for key in sorted(off_by_key):
@@ -565,6 +699,12 @@ def run(tier, seed, replay):
                                     for k, v in off_by_key.items()},
                "template_coverage_by_corpus": {"coverable_templates": coverable, "covered": covered, "uncovered": uncovered},
                "corpus_build_rounds": state["rounds"],
+               "macro_paths": sorted(set("::".join(x) for x in m_macros)),
+               "method_call_sites": method_site_table,
+               "known_method_sites": m_mknown,
+               "introduced_generic_names": sorted(set(m_gens)),
+               "known_non_dunder_generics": m_gknown,
+               "lib_rs_exports": len(ex["exports"]),
                "observations": observations})
 
 
@@ -580,7 +720,9 @@ META = {
             "on the real expansion of each of ~250 corpus items (50 derives x shapes x attribute modes) and its verdict compared with the "
             "compiler's on the same item inside #[no_implicit_prelude] and prelude-shadowing modules; behaviour is compared at run time "
             "with the plain twin.",
-    "note": "Trusted: Coq kernel; the Rust lexer/extractor; the syntactic head-position classifier (validated per case against rustc); the "
+    "note": "Also proved: macros only through derive_more::core, derive_more paths exported by src/lib.rs, method-call receivers "
+            "classified (one listed user-typed site), completeness of the head classification, `__`-freshness of introduced generic "
+            "names (one listed exception). Trusted: Coq kernel; the Rust lexer/extractor; the syntactic head-position classifier (validated per case against rustc); the "
             "splice assumption for local-like names; interpolated values; rustc as oracle. Primitive type names are accepted (language "
             "prelude) and their shadowing is only measured.",
     "design_ref": "DESIGN.md section 2 / C15",
